@@ -121,7 +121,7 @@ Fixpoint first_aff (pre : bview) (m : bal bkey bkey) (steps : list step) (i : na
   match steps with
   | [] => (-1)%Z
   | s :: r =>
-      let v := overlay bkey bkey bytes_eqb pre m (N.of_nat i) in
+      let v := overlay bkey bkey bytes_eqb bkey key_acct bytes_eqb pre m (N.of_nat i) in
       if forallb (fun kv => bytes_eqb (v (fst kv)) (snd kv)) (st_dep s)
       then first_aff pre m r (S i) else Z.of_nat i
   end.
@@ -146,7 +146,7 @@ Definition C33_run (c : sx) : sx :=
                   let txs := map mk mid in
                   let seq := seq_process bkey bkey bkey bytes_eqb bytes_eqb prev blk in
                   let outcome := fun (b : bal bkey bkey) =>
-                    match prun bkey bkey bkey bytes_eqb prev b txs (p_init _ _ _) sch with
+                    match prun bkey bkey bkey bytes_eqb bkey key_acct bytes_eqb prev b txs (p_init _ _ _) sch with
                     | Some s => if p_done _ _ _ (length txs) s
                                 then Some (p_outcome _ _ _ txs s) else None
                     | None => None
@@ -154,7 +154,7 @@ Definition C33_run (c : sx) : sx :=
                   match outcome trueb with
                   | None => SErr 4        (* the schedule of the case does not complete *)
                   | Some oc =>
-                      let par := par_process bkey bkey bkey bytes_eqb bytes_eqb prev blk trueb oc in
+                      let par := par_process bkey bkey bkey bytes_eqb bytes_eqb bkey key_acct bytes_eqb prev blk trueb oc in
                       let mobs :=
                         match seq with
                         | None => []
@@ -178,7 +178,7 @@ Definition C33_run (c : sx) : sx :=
                                   | None => 8%N
                                   | Some ocm =>
                                       verdict_par bkey bkey bkey digest bytes_eqb bytes_ltb bytes_eqb
-                                        digest_eqb DBal DRec DReq (root_on keys) prev blk hd' m ocm
+                                        digest_eqb bkey key_acct bytes_eqb DBal DRec DReq (root_on keys) prev blk hd' m ocm
                                   end in
                                 let cls' := if (aff <? 0)%Z then cls
                                             else if (cls =? 0)%N || (cls =? 1)%N then cls else 9%N in
